@@ -293,7 +293,7 @@ def run_shard(shard, ctx):
     gen = [c for c in spec["layout"] if c in "ABCD"]
     nslots = 2 * len(gen) if gen else {"Aa": 2, "b": 1}.get(spec.get("scalar"), 0)
     base_only = shard.get("base_only")
-    vis = [0, 100] if tier == "quick" else [0, 1, 100, 101]
+    vis = [0, 100] if tier == "quick" else [0, 1, 100, 101, 102, 103, 104, 105]
     for dims in dim_arrangements(spec["sym"], B["dims"] if not base_only else [2, 3], D):
         for R in B["R"] if not base_only else [2]:
             noshare = (0,) * nslots
